@@ -19,7 +19,7 @@ MANIFEST = dict(
         "(1) Strategy parameters: the formulas of CMA::doInit, CMSA::doInit, VDCMA::init, the CMAChromosome constructor (ElitistCMA) and LMCMA::init are REGENERATED from the C++ on every run "
         "(Gen/CMAParams.lean) and proved admissible: doInit_admissible (end to end, for every n>=1, mu>=1, each recombination type, log strictly increasing: mu weights, positive, non-increasing in the rank, "
         "sum 1, mu_eff>=1, 0<c1<1, 0<cmu<=1-c1, 0<csigma<1, 0<cc<=1, dsigma>=1+csigma), cmsa_consts_admissible (cC>1, shrink factor 1-1/cC>0, the covariance update is a convex combination), "
-        "ecma_consts_admissible (all six rates in range), vdcma_rates_of_correction + vdcma_correction_ok (admissible for n>=6; for n<=5 the HEAD formula is not positive: finding F14, vdcma_head_formula_not_positive). "
+        "ecma_consts_admissible (all six rates in range), vdcma_rates_of_correction + vdcma_correction_ok_partial (admissible for n>=6; for n<=5 the HEAD formula is not positive: finding F14, vdcma_head_formula_not_positive). "
         "(2) CMA-ES (Model/CMA.lean): rank_invariance (every order-preserving phi, same variate stream => same search distribution and reported points; key lemma on the stable merge sort), sigma_pos incl. the lower-bound clamp, "
         "cov_update_psd / cov_update_pd (Mathlib PosSemidef/PosDef over the reals), reported_value_is_f, deterministic. "
         "(3) Every comparison-based strategy (Model/ES.lean Strategy: sample, evaluate, stable-sort selection, update from the selected; instance: cross-entropy method): generic_rank_invariance, generic_value_is_f. "
@@ -38,7 +38,7 @@ MANIFEST = dict(
        "cholUpdate_diag_pos proves validity of the returned factor, not that L'L'^T equals alpha*LL^T+beta*vv^T; simplex rank invariance and CEM/simplex convergence are oracle-only; the noise-handling branch of CMA::step (function.isNoisy()) is outside the property (deterministic objective); "
        "ElitistSelection uses std::sort (unstable beyond 16 elements): generations with tied fitness among more than 16 offspring are counted, not compared; convergence on the sphere is numerical (value <= 1e-10, CEM 1e-6, within the budget). "
        "Known findings on the unchanged tree (known_findings.json, findings_proposed/C11.md): F14 VD-CMA learning rates negative for n<5 and zero for n=5 (patch C11-F14-vdcma-correction-floor.patch, validated) and its consequence F12 (VD-CMA turns NaN after stagnating), "
-       "F13 the CMA covariance matrix drifts away from symmetry (oracle tolerance 1e-9*sqrt(CiiCjj)+1e-16). Observations (not violations of C11 as stated): CMA/CMSA rank offspring by unpenalizedFitness, so the PenalizingEvaluator penalty never influences selection; LMCMA.h does not compile and LMCMA::step always throws; CMAChromosome::roundUpdate deviates from the paper by a factor c_cov.",
+       "F13 the CMA covariance matrix drifts away from symmetry (oracle tolerance 1e-9*sqrt(CiiCjj)+1e-16), F15 CMA with a feasibility box whose optimum lies on the boundary and a large population loses positive definiteness of C and the eigensolver throws (thorough tier; corpus f15). CMA traces do not start at |x0| ~ 1e6 (cancellation in x - mean exceeds the 1e-9 tolerance of the C comparison; such starts are kept in the run cases). Observations (not violations of C11 as stated): CMA/CMSA rank offspring by unpenalizedFitness, so the PenalizingEvaluator penalty never influences selection; LMCMA.h does not compile and LMCMA::step always throws; CMAChromosome::roundUpdate deviates from the paper by a factor c_cov.",
   technique="Lean 4 proofs (induction over generations and over the columns of the Cholesky factor, stable-sort congruence, Mathlib PosSemidef) about regenerated formulas and hand-written models + differential correspondence and property oracle on the C++ (ASan/UBSan)",
   design="§6 C11, §14")
 FINISH = dict(level="proof",
@@ -188,7 +188,9 @@ def gen_trace_case(r, maxsteps):
     else:
         lam = r.choice([24, 40, 64]); mu = r.choice([lam // 2, lam // 4])
     ops.append("opt cma " + nums([lam, mu, r.below(3), r.choice([0, 0.5, 1.0])]))
-    x0, _ = gen_x0(r, n, box)
+    x0, xc = gen_x0(r, n, box)
+    while xc == "huge":      # |mean| ~ 1e6 with sigma ~ 0.1: the cancellation in x - mean amplifies kernel-level rounding differences of C beyond the 1e-9 tolerance
+        x0, xc = gen_x0(r, n, box)
     ops.append("cmatrace %d %d %s" % (r.range(1, 10 ** 6), r.range(1, maxsteps), nums(x0)))
     return ops
 
@@ -317,6 +319,9 @@ def classify(ops, res):
         return ("F14:vdcma-learning-rates-not-positive:n<=5", f"VD-CMA learning rates c1 and cMu are negative (n<5) or zero (n=5): {res.impl[-1][:200]}; ops {ops}")
     if info["opt"] == "vdcma" and info["n"] <= 5 and tags and set(tags) <= {"step-size-not-positive", "non-finite", "covariance-not-positive-definite", "mean-or-path-non-finite", "not-converged"}:
         return ("F12:vdcma-nan-after-stagnation", f"VD-CMA reports NaN point / value / step size after stagnating (negative learning rates, F14); ops {ops}")
+    if info["opt"] == "cma" and info["box"] and info["kind"] == "run" and tags and set(tags) <= {"covariance-not-positive-definite", "exception"} \
+            and (not res.oracle or "exception" not in tags or "eigendecomposition" in res.oracle[0]):
+        return ("F15:cma-softbox-covariance-degenerates", f"CMA with a feasibility box (optimum on the boundary): covariance loses positive definiteness / eigensolver fails; ops {ops}")
     if info["opt"] == "cma" and "covariance-not-symmetric" in tags:
         return ("F13:cma-covariance-asymmetry", f"CMA covariance matrix is not symmetric beyond rounding ({res.oracle[0][-150:]}); ops {ops}")
     if tags:
